@@ -181,5 +181,6 @@ func (x *Exec) wakeResume(cfg *Config, cv TV, ld *lockDecl, o *origin, pos token
 	st.heap[sn] = Store(sa, cv.Org.Base, Sub(s, x.intLit(1, x.idxSort())))
 	if x.c != nil && x.c.Options["old"] == "section" {
 		cfg.old = cfg.st.clone()
+		x.resnapLoopGhost(cfg)
 	}
 }
